@@ -129,6 +129,7 @@ inductive TEv
   | ret (id : Nat) (res : String)
   | gnew (a : List (TP × Int))
   | fetch (ok : Bool)
+  | ack (offs : Stash) (ok : Bool)   -- the coordinator's own decision on the OffsetCommit that follows as `.m (.attempt …)`
   | sub (a : List (TP × Int))
 
 def parseB (s : String) : Option Bool := if s == "1" then some true else if s == "0" then some false else none
@@ -185,11 +186,21 @@ def monSyncRecorded (sync : Bool) (es : List TEv) : Option String :=
       match past.find? (fun p => match p with | .m (.call id' _) => id' == id | _ => false) with
       | some (.m (.call _ ms)) =>
         match ms.find? (fun m => !(since.any fun p => match p with
-            | .m (.attempt offs true) => offs.any (fun o => o.1 == m.1 && o.2 ≥ m.2 + 1)
+            | .ack offs true => offs.any (fun o => o.1 == m.1 && o.2 ≥ m.2 + 1)
             | _ => false)) with
         | some m => some s!"sync-commit-not-recorded:{showEntry m}"
         | none => none
       | _ => some "ret-without-call"
+    | _ => none) [] es 0
+
+/-- the library never believes a commit the coordinator refused (acked means acked ON THE WIRE) -/
+def monBelieved (es : List TEv) : Option String :=
+  scan (fun past e =>
+    match e with
+    | .m (.attempt offs true) =>
+      match past with
+      | .ack offs' false :: _ => if offs' == offs then some s!"commit-believed-but-refused:{showEntries offs}" else none
+      | _ => none
     | _ => none) [] es 0
 
 /-- the Reader subscribes with exactly the generation's assignment offsets -/
@@ -216,16 +227,28 @@ def monFetchBeforeGen (es : List TEv) : Option String :=
 
 def showLPC (p : LPC) : String := (((toString (repr p)).replace "\n" " ").take 120).toString
 
+/-- `att:<offs>:<library's conclusion>:<coordinator's decision>` becomes the coordinator's decision followed by the
+attempt as the library saw it; the 3-field form means both agree -/
+def parseTEvs (tok : String) : Option (List TEv) :=
+  match tok.splitOn ":" with
+  | ["att", offs, lib, coord] => do
+    let o ← parseEntries offs
+    some [.ack o (← parseB coord), .m (.attempt o (← parseB lib))]
+  | ["att", offs, ok] => do
+    let o ← parseEntries offs
+    some [.ack o (← parseB ok), .m (.attempt o (← parseB ok))]
+  | _ => (parseTEv tok).map (fun e => [e])
+
 def opTrace (mode evs : String) : String :=
   let toks := evs.splitOn ";"
-  match toks.mapM parseTEv with
+  match (toks.mapM parseTEvs).map List.flatten with
   | some es =>
     let sync := mode == "sync"
     let mevs := es.filterMap (fun e => match e with | .m x => some x | _ => none)
     let acc := match cfirstReject {} mevs 0 with
       | none => "ok"
       | some (i, s) => s!"reject@{i}-of-model-events:{showLPC s.pc}"
-    let ms := [monCommitLeHanded es, monSyncRecorded sync es, monSubscribe es, monFetchBeforeGen es].filterMap id
+    let ms := [monCommitLeHanded es, monSyncRecorded sync es, monBelieved es, monSubscribe es, monFetchBeforeGen es].filterMap id
     let m := if ms.isEmpty then acc else acc ++ " mon=" ++ ",".intercalate ms
     s!"model={m} holds={if ms.isEmpty then 1 else 0}"
   | none => s!"bad-op {(toks.find? (fun t => (parseTEv t).isNone)).getD "?"}"
